@@ -1,20 +1,26 @@
 (* LazySolidFacts.v — SolidEntry::entries seen lazily (Pipeline.decode_solid_lazy): the iterator pulls its chunks
    from decrypt(FlattenReader) as it goes, so a stored CBC stream whose END is damaged (a partial last block, bad
-   PKCS#7 padding) yields the inner entries in front of the damage and only then the error.
+   PKCS#7 padding) yields the inner entries in front of the damage and only then the error.  EntryIterator is the one
+   after the fixes a1692e54 (an error is yielded once) and 66ed01cc (one-byte probe; every error is yielded).
 
-   1. (no cipher law) the partial view and the eager one are the same reads: decode_stream = the partial view with
-      its ending turned into the outcome; hence lazy = eager whenever the eager reader succeeds, a lazy
-      construction error is the eager error, and a lazy ending tells what the eager reader answers.
-   2. (no cipher law) never Panic, the iterator terminates.
-   3. (no cipher law) framing independence: for draining buffers the lazy result is a function of the
-      concatenation of the data chunks (and of the buffer sizes: see 5).
+   0. inner_entries_lazy over a clean end = Entry.inner_entries_loop; it terminates; in front of a pending error it
+      never ends cleanly.
+   1. (no cipher law) the partial view and the eager one are the same reads (decode_stream_of_partial); lazy = eager
+      whenever the eager reader succeeds (lazy_agrees_on_success); a clean lazy end is a clean eager end, a lazy
+      error after es means the eager reader says the same or fails as a whole (lazy_tells_eager); never Panic
+      (decode_solid_lazy_no_panic); the reader depends on its source only through the concatenation (same_src);
+      framing independence for equal draining buffers (decode_stream_partial_cut_indep, decode_solid_lazy_cut_indep).
    4. (block function keeps the block length: real_D_len) the decrypting reader is a byte-stream reader over
-      `avail`: the plaintext of the blocks in front of the first bad one, then the error.  Every read sequence
-      delivers a prefix of it; 16-byte reads (what PipelineRun uses) deliver all of it.
-   5. ChunkReader's own reads (read_exact of 4, 4, length, 4 bytes) over the real reader = the slice parse over
-      `avail`: the EntryIterator over the decrypting reader IS decode_solid_lazy with 16-byte reads.
-   6. the entries of a prefix are a prefix of the entries: what the lazy reader yields before the error is what
-      the reader of the undamaged stream yields first. *)
+      `avail`: the plaintext of the blocks in front of the first bad one, then the error (cbcr_read_avail).  Every
+      read sequence delivers a prefix of it; 16-byte reads (what PipelineRun uses) deliver all of it
+      (decode_stream_partial_spec, decode_stream_partial_prefix, reads16_deliver_all).
+   5. EntryIterator::next with the code's own read calls (probe, read_exact of 4, 4, length, 4 bytes through the
+      Chain) over ANY reader that refines an abstract one = inner_entries_lazy over what that reader has (it_all_spec);
+      instance: the CBC reader (cbc_iterator_spec, chunk_reader_refines, show_solid_is_the_iterator).
+   6. the entries of a prefix are a prefix of the entries (lazy_entries_prefix).
+   7. real-cipher instances, examples (a two-entry CBC solid entry cut between / inside its entries), and the refuted
+      independence of the buffer sizes (lazy_buffer_independence_refuted).
+   8. cutting a stored solid entry that decodes: the lazy reader yields a prefix of its entries (lazy_cut_yields_prefix). *)
 From PNA Require Import Base Crc32 Name Codec Chunk Archive Entry Flatten Cbc Ctr Pipeline
   BaseFacts ChunkFacts ArchiveFacts EntryFacts FlattenFacts CbcFacts CtrFacts StreamFacts PipelineFacts DecodeTotalFacts.
 From PNA Require Import Aes Camellia AesFacts CamelliaFacts PipelineRun RecutFacts.
